@@ -56,7 +56,15 @@ def _place(workdir, orig, setup):
     """Fresh copy of the metafile with the case's mode; returns the path as the edit will be given it."""
     os.makedirs(workdir, exist_ok=True)
     mpath = os.path.join(workdir, "m.torrent")
-    shutil.copyfile(orig, mpath)
+    if setup.get("linked"):
+        # the metafile path is a symbolic link (a watch-directory entry pointing into a store): whatever the edit does
+        # with the link, the bytes read THROUGH the path must be the old or the new metafile at every moment
+        os.makedirs(os.path.join(workdir, "store"), exist_ok=True)
+        shutil.copyfile(orig, os.path.join(workdir, "store", "real.torrent"))
+        os.symlink(os.path.join("store", "real.torrent") if setup["linked"] == "relative"
+                   else os.path.join(workdir, "store", "real.torrent"), mpath)
+    else:
+        shutil.copyfile(orig, mpath)
     os.chmod(mpath, setup.get("mode", 0o644))
     os.chdir(workdir)
     return "m.torrent" if setup.get("relative") else mpath
@@ -78,7 +86,7 @@ def _phase1(workdir, orig, req, via, setup):
     ff.uninstall()
     with open(mpath, "rb") as fd:
         new = fd.read()
-    leftovers = sorted(n for n in os.listdir(workdir) if n != "m.torrent")
+    leftovers = sorted(n for n in os.listdir(workdir) if n not in ("m.torrent", "store"))
     return {"exc": exc, "new": new, "lines": lt.trace, "ops": ff.ops, "audit": [e for e, _ in events],
             "leftovers": leftovers}
 
@@ -196,7 +204,8 @@ class C17:
                 "seed": rng.randrange(1 << 30), "extra_lines": 24 if tier == "quick" else "all",
                 "mode": rng.choice([0o644, 0o644, 0o600, 0o444, 0o400, 0o664]), "relative": rng.random() < 0.3,
                 "req2": gen_request(rng, route), "seq_samples": 16 if tier == "quick" else 60,
-                "unenc": [rng.randrange(len(UNENCODABLE)) for _ in range(2)]}
+                "unenc": [rng.randrange(len(UNENCODABLE)) for _ in range(2)],
+                "linked": rng.choice([None] * 5 + ["relative", "absolute"])}
 
     @staticmethod
     def run(case, scratch):
@@ -213,7 +222,7 @@ class C17:
         orig = os.path.join(scratch, "orig.torrent")
         with open(orig, "wb") as fd:
             fd.write(old)
-        setup = {"mode": case.get("mode", 0o644), "relative": case.get("relative", False)}
+        setup = {"mode": case.get("mode", 0o644), "relative": case.get("relative", False), "linked": case.get("linked")}
         st, p1 = fork_call(_phase1, os.path.join(scratch, "p1"), orig, case["req"], case["via"], setup)
         if st != "ok":
             return {"inconclusive": f"phase 1 {st}", "traceback": str(p1)[-1500:]}
@@ -392,6 +401,8 @@ class C17:
                                       raised=res.get("exc") if st == "ok" else st))
         if not case.get("mode", 0o644) & 0o200:
             counters["readonly_metafile_cases"] = 1
+        if case.get("linked"):
+            counters["metafile_path_is_symlink_cases"] = 1
         return {"violations": viol, "counters": counters, "nontrivial": True, "evaluations": execs,
                 "sigs": [list(s) for s in sigs],
                 "sample": {"version": case["version"], "via": case["via"], "request": case["req"],
